@@ -413,6 +413,178 @@ def explore_schedules(ctx, res):
             "violating": tot["nbad"]}, tot
 
 
+# =============================================================================== (2b) cold / shared-object schedules
+# Every schedule of these groups runs in a *fresh fork* of the pristine worker, so that lazily
+# built globals (memo tables, caches) are cold in every execution; the "shared" groups let two
+# threads call accessors on ONE freshly built object (lazy per-instance caches).
+
+V4B_SAME_MACRO = "CVSS:4.0/AV:L/AC:H/AT:P/PR:L/UI:A/VC:L/VI:N/VA:L/SC:N/SI:L/SA:N/E:U/CR:L/IR:L/MSI:S/MAV:N"
+
+
+def _acc_small(o):
+    return json.dumps([o.clean_vector()])
+
+
+def _acc_medium(o):
+    out = [o.clean_vector(), o.rh_vector(), o.scores(), o.severities(),
+           json.dumps(o.as_json(sort=True, minimal=True), sort_keys=True)]
+    if hasattr(o, "temporal_vector"):
+        out += [o.temporal_vector(), o.environmental_vector()]
+    return json.dumps(out)
+
+
+COLD_GROUPS = [
+    # (name, kind, spec, levels [(bound, granularity, stride)])
+    ("cold: same v4 vector in both threads", "new", [("CVSS4", V4B), ("CVSS4", V4B)], [(1, "line", 1)]),
+    ("cold: two v4 vectors of one macrovector", "new", [("CVSS4", V4B), ("CVSS4", V4B_SAME_MACRO)], [(1, "line", 1)]),
+    ("cold: same v3 vector in both threads", "new", [("CVSS3", V31), ("CVSS3", V31)], [(1, "line", 1), (2, "call", 1)]),
+    ("cold: v3.0 and v3.1, same body", "new", [("CVSS3", V30), ("CVSS3", V31)], [(1, "line", 1)]),
+    ("cold: same v2 vector in both threads", "new", [("CVSS2", V2B), ("CVSS2", V2B)], [(1, "line", 1), (2, "call", 1)]),
+    ("cold: same text in both threads", "new", [("TEXT", TEXT), ("TEXT", TEXT)], [(1, "line", 2)]),
+    ("shared CVSS2 object, small accessor set", "shared", ("CVSS2", V2B, "small"), [(1, "line", 1), (2, "line", 1)]),
+    ("shared CVSS3 object, small accessor set", "shared", ("CVSS3", V31, "small"), [(1, "line", 1), (2, "line", 1)]),
+    ("shared CVSS4 object, small accessor set", "shared", ("CVSS4", V4B, "small"), [(1, "line", 1), (2, "line", 1)]),
+    ("shared CVSS2 object, all accessors", "shared", ("CVSS2", V2B, "medium"), [(1, "line", 1)]),
+    ("shared CVSS3 object, all accessors", "shared", ("CVSS3", V30, "medium"), [(1, "line", 1)]),
+    ("shared CVSS4 object, all accessors", "shared", ("CVSS4", V4A, "medium"), [(1, "line", 1)]),
+]
+
+
+def cold_bodies(gi):
+    name, kind, spec, _ = COLD_GROUPS[gi]
+    if kind == "new":
+        return make_bodies(spec, "short")
+    cls, vec, size = spec
+    o = _cls(cls)(vec)
+    f = _acc_small if size == "small" else _acc_medium
+    # the third body runs after both threads are done (it is never preempted: plans only name
+    # threads 0 and 1, the scheduler appends it as a run-to-completion segment): the object must
+    # still behave like a fresh one
+    return [lambda: f(o), lambda: f(o), lambda: _acc_medium(o) + "|" + json.dumps(hash(o) == hash(_cls(cls)(vec)))]
+
+
+def in_fork(fn):
+    """Run fn() in a fresh fork of this process; returns its JSON-serialisable result."""
+    r, w = os.pipe()
+    pid = os.fork()
+    if pid == 0:
+        code = 0
+        try:
+            os.close(r)
+            try:
+                data = json.dumps(["ok", fn()])
+            except BaseException as e:  # noqa
+                data = json.dumps(["err", "%s: %s" % (type(e).__name__, e)])
+            data = data.encode("utf-8")
+            while data:
+                n = os.write(w, data)
+                data = data[n:]
+        except BaseException:  # noqa
+            code = 1
+        finally:
+            os._exit(code)
+    os.close(w)
+    chunks = []
+    while True:
+        b = os.read(r, 65536)
+        if not b:
+            break
+        chunks.append(b)
+    os.close(r)
+    os.waitpid(pid, 0)
+    kind, val = json.loads(b"".join(chunks).decode("utf-8"))
+    if kind != "ok":
+        raise core.HarnessError("forked schedule execution failed: %s" % val)
+    return val
+
+
+def cold_alone(gi):
+    """Each body alone, each in a cold process (for shared groups: on a fresh object)."""
+    n = 3 if COLD_GROUPS[gi][1] == "shared" else 2
+    out = []
+    for t in range(n):
+        out.append(in_fork(lambda t=t: ["ok", cold_bodies(gi)[t]()]))
+    return out
+
+
+def cold_points(gi, gran):
+    prefix = os.path.join(core.REPO, "cvss") + os.sep
+    return in_fork(lambda: sched.count_points(cold_bodies(gi)[:2], gran, prefix))
+
+
+def cold_run(gi, plan, gran):
+    prefix = os.path.join(core.REPO, "cvss") + os.sep
+
+    def go():
+        ex = sched.Execution(cold_bodies(gi), plan, gran, prefix)
+        res = ex.run()
+        return [[list(r) for r in res], ex.points]
+    return in_fork(go)
+
+
+_COLD = {}
+
+
+def _cold_plans(gi, bound, gran, stride):
+    key = (gi, bound, gran, stride)
+    if key not in _COLD:
+        npts = cold_points(gi, gran)
+        _COLD[key] = (list(sched.plans(npts, bound, stride)), npts, cold_alone(gi))
+    return _COLD[key]
+
+
+def cold_judge(gi, plan, gran, alone):
+    res, points = cold_run(gi, plan, gran)
+    for t, (g, w) in enumerate(zip(res, alone)):
+        if list(g) != list(w):
+            return "thread %d observes %s, but %s when it runs alone" % (t, str(g)[:300], str(w)[:300]), points
+    return None, points
+
+
+def _cold_task(t):
+    gi, bound, gran, stride, lo, hi = t
+    plans, npts, alone = _cold_plans(gi, bound, gran, stride)
+    acc = sweep.new_acc()
+    for plan in plans[lo:hi]:
+        acc["n"] += 1
+        why, points = cold_judge(gi, plan, gran, alone)
+        acc["calls"] += sum(points)
+        acc["cmp"] += 2
+        if why:
+            again = [cold_judge(gi, plan, gran, alone)[0] for _ in range(2)]
+            sweep.bad(acc, {"what": "%s, schedule %s (%s granularity): %s" % (COLD_GROUPS[gi][0], plan, gran, why),
+                            "kind": "cold_schedule", "input": {"group": gi, "plan": [list(p) for p in plan], "gran": gran},
+                            "deterministic": again[0] == again[1], "signature": {"kind": "schedule"}})
+        else:
+            acc["nontrivial"] += 1
+    if not acc["samples"] and hi > lo:
+        acc["samples"].append({"group": COLD_GROUPS[gi][0], "plan": plans[lo], "granularity": gran})
+    return acc
+
+
+def explore_cold_schedules(ctx, res):
+    tasks, summary = [], {}
+    for gi, (name, kind, spec, levels) in enumerate(COLD_GROUPS):
+        for bound, gran, stride in levels:
+            if not ctx.thorough:
+                if bound == 2:
+                    stride = 3 if "CVSS4" in name else 2
+                elif "one macrovector" in name:
+                    stride = 2
+            plans, npts, alone = _cold_plans(gi, bound, gran, stride)
+            summary["%s | bound %d, %s%s" % (name, bound, gran, "/%d" % stride if stride > 1 else "")] = {
+                "schedules": len(plans), "points_per_thread": npts}
+            step = max(10, len(plans) // 48)
+            for lo in range(0, len(plans), step):
+                tasks.append((gi, bound, gran, stride, lo, min(len(plans), lo + step)))
+    accs = core.pool_map(_cold_task, ctx.rot(tasks))
+    tot = sweep.merge(accs)
+    for c in tot["bad"]:
+        res.add_violation(c)
+    return {"schedules": tot["n"], "scheduling_points_executed": tot["calls"], "groups": summary,
+            "violating": tot["nbad"]}, tot
+
+
 # =============================================================================== (3) hash seeds
 
 def explore_hashseeds(ctx, res):
@@ -544,21 +716,25 @@ def run(ctx, res):
     ctx.log("histories: %r" % (h,))
     s, tot = explore_schedules(ctx, res)
     ctx.log("schedules: %d, %d points" % (s["schedules"], s["scheduling_points_executed"]))
+    cs, ctot = explore_cold_schedules(ctx, res)
+    ctx.log("cold/shared schedules: %d, %d points" % (cs["schedules"], cs["scheduling_points_executed"]))
     hs = explore_hashseeds(ctx, res)
     ctx.log("hash seeds done")
     d = explore_decimal(ctx, res)
     ctx.log("decimal contexts done")
     cov["histories"] = h
     cov["schedules"] = s
+    cov["cold_and_shared_object_schedules"] = cs
     cov["hash_seeds"] = hs
     cov["decimal_contexts"] = d
-    cov["states"] = h["histories_run"] + s["schedules"] + len(hs["seeds"]) + d["contexts"]
+    cov["states"] = h["histories_run"] + s["schedules"] + cs["schedules"] + len(hs["seeds"]) + d["contexts"]
     cov["transitions"] = h["histories_run"] * (h["depth"] + 1) + s["scheduling_points_executed"] + \
+        cs["scheduling_points_executed"] + \
         hs["comparisons"] + d["contexts"] * d["vectors_per_context"]
-    cov["traces_validated_against_impl"] = h["histories_run"] + tot["cmp"] + hs["comparisons"] + \
+    cov["traces_validated_against_impl"] = h["histories_run"] + tot["cmp"] + ctot["cmp"] + hs["comparisons"] + \
         d["contexts"] * d["vectors_per_context"]
     cov["evaluations"] = cov["states"]
-    cov["distinct_nontrivial"] = h["histories_run"] + tot["nontrivial"]
+    cov["distinct_nontrivial"] = h["histories_run"] + tot["nontrivial"] + ctot["nontrivial"]
     cov["rule"] = ("states = explored executions: API-call histories (each followed by the probe and the "
                    "snapshot comparison), complete thread schedules, hash-seed and decimal-context "
                    "configurations; transitions = operations / scheduling points / compared cases; "
@@ -588,6 +764,15 @@ def replay(case):
         if (a is None) != (b is None):
             raise core.HarnessError("schedule replay is not deterministic")
         return bool(a), a or "as sequential"
+    if k == "cold_schedule":
+        i = case["input"]
+        plan = [tuple(p) for p in i["plan"]]
+        alone = cold_alone(i["group"])
+        a = cold_judge(i["group"], plan, i["gran"], alone)[0]
+        b = cold_judge(i["group"], plan, i["gran"], alone)[0]
+        if (a is None) != (b is None):
+            raise core.HarnessError("schedule replay is not deterministic")
+        return bool(a), a or "as when run alone"
     if k in ("diff", "crash"):
         if case.get("sub") == "decimal":
             return config.replay_diff(config.Config("decimal-default", sys.executable, "0"), case, "quick")
